@@ -59,6 +59,8 @@ type Env struct {
 	MA      map[string]interface{}
 	O, P    *Obj
 	X, Y    interface{}
+	PI      *int // pointer members (no value domain: set by the families that use them)
+	PS      *string
 	H       int     // boundary values of int
 	HF      float64 // boundary values of float64
 	I8      int8
@@ -124,6 +126,25 @@ func (e Env) OpAnyEq(a, b interface{}) bool {
 }
 func (e Env) Plus(a, b int) int { e.L.Add("Plus(%d,%d)", a, b); return a + b + 7 }
 func (e Env) Get(k int) int     { e.L.Add("Get(%d)", k); return k * 3 }
+func (e Env) PickV(i int, xs ...interface{}) interface{} {
+	e.L.Add("PickV(%d)/%d", i, len(xs))
+	if i >= 0 && i < len(xs) {
+		return xs[i]
+	}
+	return nil
+}
+func (e Env) OpSubMI(a, b MyInt) MyStr {
+	e.L.Add("OpSubMI(%d,%d)", a, b)
+	return MyStr(fmt.Sprint("span", int(a)-int(b)))
+}
+func (e Env) OpAddMIS(a MyInt, b MyStr) MyInt {
+	e.L.Add("OpAddMIS(%d,%s)", a, b)
+	return a + MyInt(len(b))
+}
+func (e Env) OpNotIn(a, b string) bool {
+	e.L.Add("OpNotIn(%q,%q)", a, b)
+	return !strings.Contains(b, a)
+}
 func (e Env) OpSubBoom(a, b int) int {
 	e.L.Add("OpSubBoom(%d,%d)", a, b)
 	if b == 0 {
@@ -178,7 +199,7 @@ var Domains = map[string]Domain{
 	"X":   {c(interface{}(1)), c(interface{}("a")), c(interface{}(nil)), c(interface{}(2.5))},
 	"Y":   {c(interface{}(2)), c(interface{}(1.0))},
 	"H":   {c(1 << 32), c(math.MaxInt64), c(math.MinInt64), c(1000)},
-	"HF":  {c(float64(1 << 53)), c(-float64(1<<53) - 2), c(0.1)},
+	"HF":  {c(float64(1 << 53)), c(-float64(1<<53) - 2), c(0.1), c(math.NaN())},
 	"I8":  {c(int8(1)), c(int8(-128)), c(int8(0))},
 	"U8":  {c(uint8(1)), c(uint8(200)), c(uint8(0))},
 	"I64": {c(int64(1)), c(int64(-3)), c(int64(0))},
